@@ -2,7 +2,7 @@
 From Coq Require Import List ZArith NArith Bool Permutation Sorted.
 From Coq.Strings Require Import Byte.
 Import ListNotations.
-From SV Require Import Text G_flags C10_Model C10_Lemmas C10_Table C10_Reader C10_Extra C10_Total C10_Excl.
+From SV Require Import Text G_flags C10_Model C10_Lemmas C10_Table C10_Reader C10_Extra C10_Total C10_Excl C10_NoNl.
 Local Open Scope Z_scope.
 
 (* P0 single_loc_spec: _parse_single_loc on the text of one location. n -> [n-1, n), a..b -> [a-1, b), '<' and '>' -> BEYOND_LEFT /
@@ -96,6 +96,13 @@ Theorem C10_read_render : forall excl rs, wf_C10 excl rs = true ->
   iter_genbank excl (render_gb rs) = ROk (view excl rs) /\ read_fts_genbank excl (render_gb rs) = ROk (view_fts excl rs).
 Proof. exact read_render. Qed.
 Print Assumptions C10_read_render.
+
+(* the side condition of wf_C10 "no rendered line contains a newline" follows from the character classes of the records: the domain
+   of C10_read_render is just a non-empty list of well-formed records *)
+Theorem C10_wf_no_nl : forall excl rs,
+  (forallb (wf_arec excl) rs = true -> no_nl rs = true) /\ wf_C10 excl rs = nonempty rs && forallb (wf_arec excl) rs.
+Proof. exact (fun excl rs => conj (wf_no_nl excl rs) (wf_C10_simple excl rs)). Qed.
+Print Assumptions C10_wf_no_nl.
 
 (* what the view is, clause by clause: one record per abstract record in order; id = first word of ACCESSION ('' without one);
    header fields as metadata (REFERENCE dropped); residues upper-cased; one feature per feature-table entry with key as type, the
